@@ -1,6 +1,6 @@
 (* C05 — property theorems only (model: Server/Data.v) *)
 From Coq Require Import List String NArith ZArith Bool.
-From Verif Require Import Base.Util Server.Data Server.DataProofs C05.Check.
+From Verif Require Import Base.Util Server.Data Server.DataProofs Server.DataInv C05.Check.
 Import ListNotations.
 
 (* a batch in which a downstream write or the checkpoint write fails advances no checkpoint: for every state,
@@ -43,6 +43,22 @@ Print Assumptions C05_resume_from_checkpoint.
 (* non-vacuity and the composed behaviour on a concrete history: batches of two, a refused write in the middle of
    a batch, resume, crash with a buffered pack; at the end every pack of the stream is acknowledged at least once
    and the checkpoint is the last pack *)
+(* Every history - any number of tasks, source streams and downstream channels, any batch size, write and checkpoint-write
+   failures at any position, drop events, error events, pauses, resumes, crashes with restart and reload, in any order: every
+   checkpoint names a pack (message id n, that pack's end time) such that the pack and every earlier pack of its stream
+   have been acknowledged by the downstream. *)
+Theorem C05_every_history : forall maxcount streams ls k p,
+  let s := run maxcount streams ls in
+  nlookup (store s) k = Some p ->
+  let n := N.to_nat (ps_id p) in (1 <= n)%nat /\ ps_ms p = pk_ms k (n - 1) /\ forall j, (j < n)%nat -> DataInv.acked s k j.
+Proof. intros maxcount streams ls k p s L. destruct (run_Inv maxcount streams ls (init streams) (Inv_init streams)) as [A _]. exact (A k p L). Qed.
+Print Assumptions C05_every_history.
+
+(* the invariant behind it is inductive: one label keeps it from any state that has it *)
+Theorem C05_step : forall maxcount streams s l, Inv streams s -> Inv streams (step maxcount streams s l).
+Proof. exact step_Inv. Qed.
+Print Assumptions C05_step.
+
 Example C05_nonvacuous :
   let streams := [{| s_task := "a"; s_coll := 101; s_name := "c1"; s_pch := "p"; s_ch := "q"; s_len := 6 |}]%string in
   let ls := [Feed 0 None false; Feed 0 None false; Feed 0 None false; Feed 0 (Some 2) false; ApiResume "a"%string;
